@@ -1115,16 +1115,21 @@ def inert_diffs(a, b):
             for f in ("rows", "realizations", "perturbations", "ao", "ac"):
                 if not _same(ra[f], rb[f]):
                     diffs.append({"call": k, "field": "request." + f, "A": ra[f], "B": rb[f]})
-        for idx, (xa, xb) in enumerate(zip(ca["results"], cb["results"])):
-            for f in xa:
-                if f in ("batch_id", "info"):
-                    continue
-                va, vb = xa[f], xb[f]
-                if f in ("objectives", "constraints") and ra is not None:
-                    flags = ra["ao" if f == "objectives" else "ac"]
-                    va, vb = _mask_inactive(va, flags), _mask_inactive(vb, flags)
-                if not _same(va, vb):
-                    diffs.append({"call": k, "result": idx, "field": f, "A": va, "B": vb})
+        if (ca.get("user") is None) != (cb.get("user") is None) or \
+                (ca.get("user") is not None and len(ca["user"]) != len(cb["user"])):
+            diffs.append({"call": k, "field": "number of user-domain copies"})
+            continue
+        for dom, la, lb in (("opt", ca["results"], cb["results"]), ("user", ca.get("user") or [], cb.get("user") or [])):
+            for idx, (xa, xb) in enumerate(zip(la, lb)):
+                for f in xa:
+                    if f in ("batch_id", "info"):
+                        continue
+                    va, vb = xa[f], xb[f]
+                    if f in ("objectives", "constraints") and ra is not None:
+                        flags = ra["ao" if f == "objectives" else "ac"]
+                        va, vb = _mask_inactive(va, flags), _mask_inactive(vb, flags)
+                    if not _same(va, vb):
+                        diffs.append({"call": k, "result": idx, "field": f, "A": va, "B": vb, "domain": dom})
     return diffs
 
 
